@@ -167,6 +167,9 @@ func (g *GenCfg) genCase(t *rapid.T, prop string) *Case {
 	c := &Case{Prop: prop}
 	if g.SlabAny && rapid.IntRange(0, 3).Draw(t, "slabany") == 0 {
 		c.Cfg.Slab = rapid.Uint32Range(256, 32768).Draw(t, "slabu")
+	} else if !g.SlabAny && len(g.Slabs) > 1 && rapid.IntRange(0, 5).Draw(t, "slabq") == 0 {
+		// quick tier: every sixth case at an arbitrary (odd, even, non-power-of-two) size that is still cheap
+		c.Cfg.Slab = rapid.Uint32Range(256, 2100).Draw(t, "slabu")
 	} else {
 		c.Cfg.Slab = rapid.SampledFrom(g.Slabs).Draw(t, "slab")
 	}
